@@ -3,6 +3,8 @@ import collections
 import common as C
 
 ID = "C17"
+# files this check also depends on (the quick tier runs at the thorough sizes when one of them differs from the fingerprinted tree)
+EXTRA_FILES = ['src/kinematics_impl.rs']
 COQ_TARGETS = ["Gen/Delegation.vo", "Gen/Consts.vo", "Properties/C17.vo"]
 THEOREMS = ["C17_frame3_rigid", "C17_collinear_source", "C17_collinear_target", "C17_incongruent", "C17_frame_core_orthogonal",
             "C17_frame_core_det", "C17_forward_transformed"]
